@@ -331,6 +331,8 @@ def obligations(tier, known):
     if tier == "thorough":
         for hd in range(len(HEADS)):
             for iv in range(12):
+                if not some_valid(hd, iv):
+                    continue
                 obs.append(Ob(id="expand3/%s/%s" % (HEADS[hd][0], INVS[iv].replace(" ", "_")), kind="ch", module=__name__,
                               func="h_expand", params=dict(head=hd, inv=iv, nitems=10, ng=2, nh=1, three=True, regions=regions),
                               timeout=1500, group="expand"))
